@@ -382,6 +382,7 @@ def den_roots(C, entry, path, dens, nscan=1200):
             val = dagm.numeval(nodes, atoms, point(theta), mp)
             return _poly_eval(C, d, val, mp)
         prev_t, prev_v = None, None
+        hist = []
         for k in range(1, nscan + 1):
             th = mp.mpf(13) * k / nscan
             try: v = f(th)
@@ -396,8 +397,25 @@ def den_roots(C, entry, path, dens, nscan=1200):
                     asg = point(cand)
                     out.append({v_: float(x) for v_, x in asg.items()})
             prev_t, prev_v = th, v
-        if len(out) >= 8: break
-    return out[:8]
+            hist.append((th, abs(v)))
+            if len(hist) >= 3 and hist[-2][1] < hist[-3][1] and hist[-2][1] < hist[-1][1]:
+                # local minimum of |den| (a zero without sign change, e.g. 1 + cos(theta) at pi): ternary search
+                lo, hi = hist[-3][0], hist[-1][0]
+                for _ in range(120):
+                    m1 = lo + (hi - lo) / 3; m2 = hi - (hi - lo) / 3
+                    if abs(f(m1)) < abs(f(m2)): hi = m2
+                    else: lo = m1
+                mid = (lo + hi) / 2
+                scale = max(hist[-3][1], hist[-1][1], mp.mpf(10) ** -30)
+                if abs(f(mid)) < scale * mp.mpf(10) ** -12:
+                    import math as _m
+                    asg = point(mid); fa = {v_: float(x) for v_, x in asg.items()}
+                    out.append(fa)
+                    # neighbouring doubles of the magnitude as well (the real code evaluates libm at doubles)
+                    for dlt in (-1, 1):
+                        asg2 = point(mid * (1 + dlt * mp.mpf(2) ** -52)); out.append({v_: float(x) for v_, x in asg2.items()})
+        if len(out) >= 12: break
+    return out[:12]
 
 def solver_confirm(entry, path, name, asg, timeout_ms=20000):
     """Direct encoding of the raw DAG with the inputs pinned to the candidate point: the solver must return sat
